@@ -736,7 +736,11 @@ fn record_c17(sink: &mut Sink, exe: &str, dir: &str, games: &[(String, Tree)], r
         hdoc.huge = first_terminal_outcome(&hdoc.root);
         let huge = cli::render_efg(&hdoc, rng);
         let nofield = text.replacen(" }", " ", 2);
-        for (what, class, txt) in [("truncated", "junk", cut), ("huge-payoff", "efg-huge", huge), ("missing-braces", "junk", nofield), ("garbage", "junk", "this is not a game\n".to_string())] {
+        // a complete document followed by something else is not a document
+        let tail_node = format!("{text}t \"\" 1 {{ 0 0 }}\n");
+        let tail_junk = format!("{text}}} trailing\n");
+        for (what, class, txt) in [("truncated", "junk", cut), ("huge-payoff", "efg-huge", huge), ("missing-braces", "junk", nofield), ("garbage", "junk", "this is not a game\n".to_string()),
+                                   ("trailing-node", "junk", tail_node), ("trailing-junk", "junk", tail_junk)] {
             for k in 0..nroutes.min(4) {
                 let route = &routes[(k * 3 + gi) % routes.len()];
                 case(sink, name, what, class, &txt, None, route, runs);
@@ -758,6 +762,10 @@ fn record_c17(sink: &mut Sink, exe: &str, dir: &str, games: &[(String, Tree)], r
             variants.push(("player-number", "junk", good.replacen("\"player_one\":true", "\"player_one\":1", 1).replacen("\"player_one\":false", "\"player_one\":2", 1)));
             variants.push(("no-actions", "json-contract", empty_first_actions(&js).to_string()));
         }
+        variants.push(("trailing-brace", "junk", format!("{good}}}")));
+        variants.push(("trailing-document", "junk", format!("{good} {good}")));
+        variants.push(("trailing-text", "junk", format!("{good}\nEFG 2 R")));
+        variants.push(("trailing-space", "json-ok", format!("{good} \n\n")));
         variants.push(("terminal-string", "junk", good.replacen("\"terminal\":", "\"terminal\":\"x\",\"was\":", 1)));
         variants.push(("extra-variant", "junk", format!("{{\"terminal\":0.0,\"chance\":{}}}", "{\"outcomes\":{}}")));
         for (vi, (what, class, txt)) in variants.iter().enumerate() {
